@@ -98,6 +98,8 @@ fn random_doc(rng: &mut Rng) -> String {
             }
             0 => s.push_str(&format!("<rect xy=\"{{{{random() * 50}}}} {{{{randint(0, 20)}}}}\" wh=\"{{{{randint(1, 9)}}}} 3\" id=\"r{i}\"/>")),
             1 => s.push_str(&format!("<loop count=\"{}\"><circle cxy=\"{{{{randint(-30, 30)}}}} {{{{randint(-30, 30)}}}}\" r=\"1\"/></loop>", 1 + rng.below(5))),
+            // several attributes of ONE <var> draw: they are evaluated in the order they are written
+            _ if rng.chance(1, 2) => s.push_str("<var p=\"{{randint(0, 50)}}\" q=\"{{randint(0, 50)}}\" r=\"{{random()}}\" s=\"{{randint(0, 9)}}\"/><rect xy=\"$p $q\" wh=\"{{1 + $s}} 2\"/><text xy=\"0 0\" text=\"$r\"/>"),
             _ => s.push_str("<var v=\"{{random()}}\"/><text xy=\"0 0\" text=\"$v\"/>"),
         }
     }
